@@ -8,7 +8,7 @@
 From Coq Require Import ZArith NArith String List Bool.
 From Sidetree Require Import Base.Sha2 Json.Json Json.Jcs Sidetree.Protocol Sidetree.Hashing Sidetree.Parser Sidetree.Applier
      Json.JcsProps Json.JcsRoundTrip Sidetree.JequivDecode Sidetree.ClientCreate
-     Sidetree.Rules Sidetree.Validator Sidetree.ClientUpdate Sidetree.ClientDeactivateRecover Sidetree.Resolve Sidetree.Composer Sidetree.ClientApply Sidetree.ClientSimple Sidetree.ClientApplySigned.
+     Sidetree.Rules Sidetree.Validator Sidetree.ClientUpdate Sidetree.ClientDeactivateRecover Sidetree.Resolve Sidetree.Composer Sidetree.ClientApply Sidetree.ClientSimple Sidetree.ClientApplySigned Sidetree.Lifecycle Sidetree.Window Sidetree.ClientWindowed Sidetree.ClientWindowedDR Sidetree.ClientWindowedApply.
 Import ListNotations.
 Open Scope string_scope.
 
@@ -105,6 +105,92 @@ Theorem C08_update_built_applies : forall cfg u n i bytes d dh rm doc t num ver 
     rm_doc rm' = Some (match apply_patches doc ps' with Some doc' => doc' | None => doc end).
 Proof. exact update_built_applies. Qed.
 Print Assumptions C08_update_built_applies.
+
+(* With an anchoring window (AnchorFrom / AnchorUntil in the update info, 0 <= f, u < 10^15): the
+   built request is accepted, the signed data decode to the same window, and applied at anchoring
+   time t the document is the composer's result exactly when t lies in the window; outside it the
+   document is carried over (the commitment still advances).  build_update_w i 0 0 = build_update i. *)
+Theorem C08_update_windowed_built_applies : forall cfg u n i f w bytes d dh rm doc t num ver canon equiv,
+  build_update_w i f w = Some (bytes, d, dh) ->
+  (0 <= f < 10 ^ 15)%Z -> (0 <= w < 10 ^ 15)%Z ->
+  In (ui_code i) (algs cfg) ->
+  (Z.of_nat (String.length bytes) <= P_MaxOperationSize cfg)%Z ->
+  hash_rule cfg (ui_reveal i) -> key_matches_reveal (Some (ui_key i)) (ui_reveal i) = true ->
+  (Z.of_nat (String.length (ui_update_c i)) <= P_MaxOperationHashLength cfg)%Z -> mh_code (ui_update_c i) = Some (ui_code i) ->
+  (Z.of_nat (String.length dh) <= P_MaxOperationHashLength cfg)%Z ->
+  (forall c, jcs (img_delta d) = Some c -> (Z.of_nat (String.length c) <= P_MaxDeltaSize cfg)%Z) ->
+  In (ui_alg i) (P_SignatureAlgorithms cfg) ->
+  In (k_crv (ui_key i)) (P_KeyAlgorithms cfg) -> nonce_rule cfg (k_nonce (ui_key i)) ->
+  Forall is_obj (ui_patches i) -> Forall wfnum (ui_patches i) ->
+  patches_valid cfg u n (ui_patches i) ->
+  rm_doc rm = Some doc ->
+  exists rm' ps',
+    apply_bytes cfg u n TUpdate bytes true t num ver canon equiv rm = Some rm' /\
+    Forall2 jequiv (ui_patches i) ps' /\
+    rm_update_c rm' = ui_update_c i /\ rm_recovery_c rm' = rm_recovery_c rm /\ rm_deactivated rm' = false /\
+    rm_origin rm' = rm_origin rm /\ rm_created rm' = rm_created rm /\ rm_updated rm' = t /\
+    rm_doc rm' = Some (if verify_range_p cfg f w t
+                       then match apply_patches doc ps' with Some doc' => doc' | None => doc end
+                       else doc).
+Proof. exact update_w_built_applies. Qed.
+Print Assumptions C08_update_windowed_built_applies.
+
+Theorem C08_update_windowed_is_update : forall i, build_update_w i 0 0 = build_update i.
+Proof. exact build_update_w_zero. Qed.
+Print Assumptions C08_update_windowed_is_update.
+
+(* deactivate with an anchoring window: takes effect exactly when t lies in the window, else refused *)
+Theorem C08_deactivate_windowed_built_applies : forall cfg u n i f w bytes rm doc t num ver canon equiv,
+  build_deactivate_w i f w = Some bytes ->
+  (0 <= f < 10 ^ 15)%Z -> (0 <= w < 10 ^ 15)%Z ->
+  (Z.of_nat (String.length bytes) <= P_MaxOperationSize cfg)%Z ->
+  hash_rule cfg (di_reveal i) -> key_matches_reveal (Some (di_key i)) (di_reveal i) = true ->
+  In (di_alg i) (P_SignatureAlgorithms cfg) ->
+  jwk_valid (di_key i) = true -> In (k_crv (di_key i)) (P_KeyAlgorithms cfg) -> nonce_rule cfg (k_nonce (di_key i)) ->
+  rm_doc rm = Some doc ->
+  if verify_range_p cfg f w t
+  then exists rm',
+    apply_bytes cfg u n TDeactivate bytes true t num ver canon equiv rm = Some rm' /\
+    rm_deactivated rm' = true /\ rm_doc rm' = Some [] /\ rm_update_c rm' = "" /\ rm_recovery_c rm' = "" /\
+    rm_origin rm' = rm_origin rm /\ rm_created rm' = rm_created rm /\ rm_updated rm' = t
+  else apply_bytes cfg u n TDeactivate bytes true t num ver canon equiv rm = None.
+Proof. exact deactivate_w_built_applies. Qed.
+Print Assumptions C08_deactivate_windowed_built_applies.
+
+(* recover with an anchoring window: commitments and origin installed whatever the time, the
+   requested document exactly when t lies in the window (else the empty document) *)
+Theorem C08_recover_windowed_built_applies : forall cfg u n i f w bytes d dh rm doc t num ver canon equiv,
+  build_recover_w i f w = Some (bytes, d, dh) ->
+  (0 <= f < 10 ^ 15)%Z -> (0 <= w < 10 ^ 15)%Z ->
+  In (ri_code i) (algs cfg) ->
+  (Z.of_nat (String.length bytes) <= P_MaxOperationSize cfg)%Z ->
+  hash_rule cfg (ri_reveal i) -> key_matches_reveal (Some (ri_key i)) (ri_reveal i) = true ->
+  (Z.of_nat (String.length (ri_update_c i)) <= P_MaxOperationHashLength cfg)%Z -> mh_code (ri_update_c i) = Some (ri_code i) ->
+  (Z.of_nat (String.length (ri_recovery_c i)) <= P_MaxOperationHashLength cfg)%Z -> mh_code (ri_recovery_c i) = Some (ri_code i) ->
+  ri_update_c i <> ri_recovery_c i ->
+  (Z.of_nat (String.length dh) <= P_MaxOperationHashLength cfg)%Z ->
+  (forall c, jcs (img_delta d) = Some c -> (Z.of_nat (String.length c) <= P_MaxDeltaSize cfg)%Z) ->
+  In (ri_alg i) (P_SignatureAlgorithms cfg) ->
+  In (k_crv (ri_key i)) (P_KeyAlgorithms cfg) -> nonce_rule cfg (k_nonce (ri_key i)) ->
+  wfnum (ri_origin i) ->
+  Forall is_obj (ri_patches i) -> Forall wfnum (ri_patches i) ->
+  patches_valid cfg u n (ri_patches i) ->
+  rm_doc rm = Some doc ->
+  exists rm' ps',
+    apply_bytes cfg u n TRecover bytes true t num ver canon equiv rm = Some rm' /\
+    Forall2 jequiv (ri_patches i) ps' /\
+    rm_update_c rm' = ri_update_c i /\ rm_recovery_c rm' = ri_recovery_c i /\ rm_deactivated rm' = false /\
+    jequiv (ri_origin i) (rm_origin rm') /\ rm_created rm' = rm_created rm /\ rm_updated rm' = t /\
+    rm_doc rm' = Some (if verify_range_p cfg f w t
+                       then match apply_patches [] ps' with Some doc' => doc' | None => [] end
+                       else []).
+Proof. exact recover_w_built_applies. Qed.
+Print Assumptions C08_recover_windowed_built_applies.
+
+Theorem C08_windowed_builders_extend : forall di ri,
+  build_deactivate_w di 0 0 = build_deactivate di /\ build_recover_w ri 0 0 = build_recover ri.
+Proof. intros di ri. split; [exact (build_deactivate_w_zero di)|exact (build_recover_w_zero ri)]. Qed.
+Print Assumptions C08_windowed_builders_extend.
 
 Theorem C08_deactivate_built_accepted : forall cfg u n o t i bytes,
   build_deactivate i = Some bytes ->
@@ -203,6 +289,51 @@ Theorem C08_updates_built_apply : forall cfg u n us rm doc,
     (us <> [] -> rm_deactivated rm' = false).
 Proof. exact updates_built_apply. Qed.
 Print Assumptions C08_updates_built_apply.
+
+(* every run of built updates carrying anchoring windows, of any length: none is refused, every
+   commitment advances, and the document is the fold of exactly those requested patch lists whose
+   step was anchored inside its own window (update_w_ok bundles the per-step hypotheses) *)
+Theorem C08_updates_windowed_built_apply : forall cfg u n ws rm doc,
+  Forall (update_w_ok cfg u n) ws -> rm_doc rm = Some doc ->
+  exists pss,
+    Forall2 (fun w ps' => Forall2 jequiv (ui_patches (au_info (aw_update w))) ps') ws pss /\
+    let rm' := fold_left (apply_update_step cfg u n) (map aw_update ws) rm in
+    rm_doc rm' = Some (fold_left (doc_step_w cfg) (combine ws pss) doc) /\
+    rm_update_c rm' = last_commitment (map aw_update ws) (rm_update_c rm) /\
+    rm_recovery_c rm' = rm_recovery_c rm /\ rm_origin rm' = rm_origin rm /\ rm_created rm' = rm_created rm /\
+    (ws <> [] -> rm_deactivated rm' = false).
+Proof. exact updates_w_built_apply. Qed.
+Print Assumptions C08_updates_windowed_built_apply.
+
+(* the whole lifecycle create -> update* -> recover -> update* -> deactivate, every request built by
+   the builders from valid input (create_ok / update_ok / recover_ok / deactivate_ok bundle the
+   hypotheses of the per-step theorems), applied in order with arbitrary anchoring data: no step
+   is refused, and after every phase the state is what the caller asked for *)
+Theorem C08_lifecycle_built_applies : forall cfg u n ci cbytes ca us1 ri rbytes ra us2 di dbytes da pub unpub,
+  create_ok cfg u n ci cbytes -> Forall (update_ok cfg u n) us1 ->
+  recover_ok cfg u n ri rbytes -> Forall (update_ok cfg u n) us2 ->
+  deactivate_ok cfg di dbytes ->
+  exists rm1 rm3 rm5 ps0 pss1 psr pss2,
+    apply_at cfg u n TCreate cbytes ca (empty_rm pub unpub) = Some rm1 /\
+    Forall2 jequiv (ci_patches ci) ps0 /\
+    rm_doc rm1 = Some (doc_step [] ps0) /\ rm_recovery_c rm1 = ci_recovery_c ci /\ rm_update_c rm1 = ci_update_c ci /\
+    let rm2 := fold_left (apply_update_step cfg u n) us1 rm1 in
+    Forall2 (fun a ps' => Forall2 jequiv (ui_patches (au_info a)) ps') us1 pss1 /\
+    rm_doc rm2 = Some (fold_left doc_step pss1 (doc_step [] ps0)) /\
+    rm_update_c rm2 = last_commitment us1 (ci_update_c ci) /\ rm_recovery_c rm2 = ci_recovery_c ci /\
+    apply_at cfg u n TRecover rbytes ra rm2 = Some rm3 /\
+    Forall2 jequiv (ri_patches ri) psr /\
+    rm_doc rm3 = Some (doc_step [] psr) /\ rm_recovery_c rm3 = ri_recovery_c ri /\ rm_update_c rm3 = ri_update_c ri /\
+    jequiv (ri_origin ri) (rm_origin rm3) /\
+    let rm4 := fold_left (apply_update_step cfg u n) us2 rm3 in
+    Forall2 (fun a ps' => Forall2 jequiv (ui_patches (au_info a)) ps') us2 pss2 /\
+    rm_doc rm4 = Some (fold_left doc_step pss2 (doc_step [] psr)) /\
+    rm_update_c rm4 = last_commitment us2 (ri_update_c ri) /\ rm_recovery_c rm4 = ri_recovery_c ri /\
+    apply_at cfg u n TDeactivate dbytes da rm4 = Some rm5 /\
+    rm_deactivated rm5 = true /\ rm_doc rm5 = Some [] /\ rm_update_c rm5 = "" /\ rm_recovery_c rm5 = "" /\
+    rm_created rm5 = an_time ca.
+Proof. exact lifecycle_built_applies. Qed.
+Print Assumptions C08_lifecycle_built_applies.
 
 (* a reveal value computed from a key validates against that key (what builders rely on when
    they derive the reveal value from the signer's key and the operation commitment's algorithm) *)
